@@ -736,7 +736,70 @@ func isErrorType(t types.Type) bool {
 }
 
 func (b *Builder) rangeStmt(s *ast.RangeStmt) {
+	// a local list grown by append in earlier loops has one term per history
+	// (empty, last grown by this loop, by that loop); ranging over it is one
+	// loop all the same: the operand is named after the variable
+	if id, ok := ast.Unparen(s.X).(*ast.Ident); ok {
+		if o, ok := b.info.Uses[id].(*types.Var); ok && !isPkgLevel(o) && !o.IsField() && b.grownInLoop(o) {
+			b.expr(s.X)
+			b.rangeStmtX(s, &Term{Op: "opaque", Name: "?grown:" + o.Name(), Pos: s.X.Pos()})
+			return
+		}
+	}
 	b.rangeStmtX(s, b.expr(s.X))
+}
+
+var grownCache = map[types.Object]bool{}
+
+// grownInLoop: the local slice variable is assigned append(itself, ...) inside
+// a loop of the function that declares it.
+func (b *Builder) grownInLoop(o *types.Var) bool {
+	if r, ok := grownCache[o]; ok {
+		return r
+	}
+	res := false
+	if _, isSlice := o.Type().Underlying().(*types.Slice); isSlice && o.Pkg() != nil {
+		if pk := b.P.All[o.Pkg().Path()]; pk != nil {
+			for _, f := range pk.Syntax {
+				if o.Pos() < f.Pos() || o.Pos() >= f.End() {
+					continue
+				}
+				var loops []ast.Node
+				ast.Inspect(f, func(n ast.Node) bool {
+					switch x := n.(type) {
+					case *ast.ForStmt, *ast.RangeStmt:
+						loops = append(loops, x)
+					case *ast.AssignStmt:
+						if len(x.Lhs) != 1 || len(x.Rhs) != 1 {
+							return true
+						}
+						lid, ok := ast.Unparen(x.Lhs[0]).(*ast.Ident)
+						if !ok || (pk.TypesInfo.Uses[lid] != o && pk.TypesInfo.Defs[lid] != o) {
+							return true
+						}
+						call, ok := ast.Unparen(x.Rhs[0]).(*ast.CallExpr)
+						if !ok || len(call.Args) < 2 {
+							return true
+						}
+						if fid, ok := call.Fun.(*ast.Ident); !ok || fid.Name != "append" {
+							return true
+						}
+						if aid, ok := ast.Unparen(call.Args[0]).(*ast.Ident); !ok || pk.TypesInfo.Uses[aid] != o {
+							return true
+						}
+						for _, l := range loops {
+							if l.Pos() <= x.Pos() && x.End() <= l.End() {
+								res = true
+							}
+						}
+					}
+					return true
+				})
+			}
+		}
+	}
+	grownCache[o] = res
+	return res
 }
 
 // rangeStmtX: the range loop s over the collection term x.
